@@ -1,4 +1,4 @@
-\* behaviour generation from the as-coded model (simulation mode)
+\* behaviour generation: one busy channel with two-digit sequences, out-of-order acknowledgements, cleans
 CONSTANTS
   Chains = {"A","B","C"}
   Names = {"A","B","C","Z"}
@@ -8,25 +8,25 @@ CONSTANTS
   DecodableData = {"d2"}
   EmptyData = ""
   AckTags = {"mock","unauth","errX","ok"}
-  MaxSeq = 3
+  MaxSeq = 13
   F_BIND = FALSE
   F_ACKCB_SRC_ONLY = TRUE
   F_STATUS = TRUE
   F_RELAY_DST_ERRACK = FALSE
   Links <- Links3
   RuleSets <- RuleSetsGen
-  Senders = {"A","C"}
-  Dests = {"A","C"}
-  UserRelays = {"","B"}
+  Senders = {"A"}
+  Dests = {"C"}
+  UserRelays = {""}
   UserPorts = {"mock"}
-  UserData = {"d1","d2"}
+  UserData = {"d1"}
   RuleChains = {"B"}
   AdvOn = TRUE
   ExpirePairs <- NoPairs
   ExportOn = FALSE
   LOG = TRUE
   SimDepth = 40
-  SimMode = "mixed"
+  SimMode = "long"
 INIT Init
 NEXT NextSim
 INVARIANT PrintBehaviour
